@@ -52,7 +52,8 @@ impl Edits {
     }
     /// Apply to `src[range]`.
     fn apply(mut self, src: &str, range: Range<usize>) -> Result<String, String> {
-        self.v.sort_by_key(|e| (e.start, if e.end == e.start { 0 } else { 1 }, e.seq));
+        // at the same start the WIDER replacement goes first: automatic token edits (`self` -> `this`) it contains then yield to it
+        self.v.sort_by_key(|e| (e.start, if e.end == e.start { 0 } else { 1 }, std::cmp::Reverse(e.end), e.seq));
         let mut out = String::new();
         let mut pos = range.start;
         let mut last_was_deletion = false;
@@ -1141,6 +1142,16 @@ fn handle_fn(
                     let k = sig.inputs.iter().position(|x| std::ptr::eq(x, inp)).unwrap_or(0);
                     sig_edits.replace(br(w), format!("_p{}", k));
                     log.push(format!("R1b:`_` parameter {} named _p{}", k, k));
+                }
+                if matches!(&*t.pat, syn::Pat::Tuple(_) | syn::Pat::TupleStruct(_) | syn::Pat::Struct(_)) {
+                    // R1d: Verus needs every parameter to be an identifier; a destructuring parameter `PAT: T` becomes `_pK: T`
+                    // and the pattern is re-bound by `let PAT = _pK;` at the head of the body (same bindings, same moves)
+                    let k = sig.inputs.iter().position(|x| std::ptr::eq(x, inp)).unwrap_or(0);
+                    let pr = br(&*t.pat);
+                    let pat_text = src[pr.clone()].to_string();
+                    sig_edits.replace(pr, format!("_p{}", k));
+                    head.push_str(&format!(" let {} = _p{};", pat_text, k));
+                    log.push(format!("R1d:pattern parameter {} named _p{}", k, k));
                 }
                 if let syn::Pat::Ident(pi) = &*t.pat {
                     if let (Some(m), None) = (&pi.mutability, &pi.by_ref) {
